@@ -73,10 +73,20 @@ def is_property_failure(kind, m):
     return None
 
 
+import os as _os
 PROPS = {}
 
 
 def reg(p):
+    # theorems of the companion files Properties/<Cxx>_*.v (translator tie: tables regenerated from /repo's
+    # source on every run and proved equal to the model's tables) are clauses of the property too
+    import glob as _g, re as _re
+    root = _os.path.dirname(_os.path.dirname(_os.path.abspath(__file__)))
+    for f in sorted(_g.glob(_os.path.join(root, 'coq', 'Properties', p.pid + '_*.v'))):
+        names = _re.findall(r'^\s*Theorem\s+(\w+)', open(f).read(), _re.M)
+        for n in names:
+            if n not in p.clauses:
+                p.clauses.append(n)
     PROPS[p.pid] = p
 
 
